@@ -370,12 +370,17 @@ def _as_bool(x):
 
 
 class Contains(Contract):
+    """Two cases per dimension.  'region-point': the argument is constrained to p = R theta + c with lo <= theta <= hi, and the answer
+    must be True.  'any-point': arbitrary p; with the ghost definition y := R^-1 (p - c) the answer must be [lo <= y <= hi] and
+    p = R y + c must hold (so `True` is only ever answered for a point of the region).  All polynomial facts are stated over
+    flat monomials (products of constants) and the products of hypotheses with a coordinate are explicit cut steps:
+    the remaining goals are linear combinations."""
     target = ROMC + '::NDimBoundingBox.contains'
     prop = 'C19'
     fin = 4
 
     def __init__(self, D, case):
-        self.D, self.case = D, case            # case: 'region-point' (p := R theta + c, theta in the box) | 'any-point'
+        self.D, self.case = D, case
         self.label = 'D%d-%s' % (D, case)
 
     def env(self, vc):
@@ -384,35 +389,42 @@ class Contains(Contract):
     def setup(self, vc):
         D = self.D
         b = Box(D)
-        s = NS(b=b)
+        s = NS(b=b, p=consts('p', D))
         if self.case == 'region-point':
             s.th = consts('theta', D)
-            s.p = b.image(s.th)
         else:
-            s.p = consts('p', D)
-            s.y = b.preimage(s.p)
+            s.y = consts('y', D)
         return s, (b.obj(), vec(s.p)), {}
 
     def requires(self, s):
-        b = s.b
+        b, D = s.b, self.D
         # numpy.linalg.inv (assumed): both products are the identity
         out = [is_identity(b.Rinv, b.R), is_identity(b.R, b.Rinv)]
         if self.case == 'region-point':
             out.append(in_box(s.th, b.lim))
+            out.append(z3.And([s.p[k] == _ssum([b.R[k][j] * s.th[j] for j in range(D)]) + b.c[k] for k in range(D)]))      # p = R theta + c
+        else:
+            # ghost definition y = R^-1 (p - c), written per monomial
+            out.append(z3.And([s.y[i] == _ssum([b.Rinv[i][m] * s.p[m] - b.Rinv[i][m] * b.c[m] for m in range(D)]) for i in range(D)]))
         return out
 
     def lemmas_at_exit(self, s, result):
-        # explicit products of the inverse identities with the coordinates (what NRA needs; each one is proved as a cut)
         vc, b, D = cur(), s.b, self.D
         if self.case == 'region-point':
             for i in range(D):
+                for k in range(D):
+                    vc.cut('R^-1[%d,%d] times the equation of p_%d' % (i, k, k),
+                           b.Rinv[i][k] * s.p[k] == _ssum([b.Rinv[i][k] * b.R[k][j] * s.th[j] for j in range(D)]) + b.Rinv[i][k] * b.c[k])
                 for j in range(D):
-                    vc.cut('(R^-1 R)[%d,%d] theta_%d' % (i, j, j), _ssum([b.Rinv[i][k] * b.R[k][j] for k in range(D)]) * s.th[j] == (s.th[j] if i == j else 0))
+                    vc.cut('(R^-1 R)[%d,%d] times theta_%d' % (i, j, j), _ssum([b.Rinv[i][k] * b.R[k][j] * s.th[j] for k in range(D)]) == (s.th[j] if i == j else 0))
         else:
             for k in range(D):
+                for i in range(D):
+                    vc.cut('R[%d,%d] times the definition of y_%d' % (k, i, i),
+                           b.R[k][i] * s.y[i] == _ssum([b.R[k][i] * b.Rinv[i][m] * s.p[m] - b.R[k][i] * b.Rinv[i][m] * b.c[m] for m in range(D)]))
                 for m in range(D):
-                    d = s.p[m] - b.c[m]
-                    vc.cut('(R R^-1)[%d,%d] (p - c)_%d' % (k, m, m), _ssum([b.R[k][i] * b.Rinv[i][m] for i in range(D)]) * d == (d if k == m else 0))
+                    vc.cut('(R R^-1)[%d,%d] times p_%d' % (k, m, m), _ssum([b.R[k][i] * b.Rinv[i][m] * s.p[m] for i in range(D)]) == (s.p[m] if k == m else 0))
+                    vc.cut('(R R^-1)[%d,%d] times c_%d' % (k, m, m), _ssum([b.R[k][i] * b.Rinv[i][m] * b.c[m] for i in range(D)]) == (b.c[m] if k == m else 0))
         return []
 
     def ensures(self, s, result):
@@ -420,18 +432,17 @@ class Contains(Contract):
         res = _as_bool(result)
         if self.case == 'region-point':
             return [('every point R theta + c with lo <= theta <= hi is reported inside', res)]
-        img = b.image(s.y)
         return [('reported inside  <=>  y = R^-1 (p - c) satisfies lo <= y <= hi', res == in_box(s.y, b.lim)),
-                ('p = R y + c (so a point reported inside is a point of the region, with witness y)', z3.And([s.p[k] == img[k] for k in range(D)]))]
+                ('p = R y + c (so a point reported inside is a point of the region, with witness y)',
+                 z3.And([s.p[k] == _ssum([b.R[k][i] * s.y[i] for i in range(D)]) + b.c[k] for k in range(D)]))]
 
     def witness(self, vc, model, ob):
         ev = lambda t: str(model.eval(t, model_completion=True))
         w = Box(self.D).witness(model)
         w['function'] = 'contains'
+        w['point'] = [ev(x) for x in consts('p', self.D)]
         if self.case == 'region-point':
             w['theta'] = [ev(x) for x in consts('theta', self.D)]
-        else:
-            w['point'] = [ev(x) for x in consts('p', self.D)]
         return w
 
 
@@ -482,7 +493,7 @@ class LemmaSampleInside(Contract):
         vc.fin_bounds.extend([n2, r])
         b = Box(D)
         TH = z3.Function('TH', I_, I_, R_)
-        s = NS(b=b, n2=n2, r=r)
+        s = NS(b=b, n2=n2, r=r, inv_ok=z3.And(is_identity(b.Rinv, b.R), is_identity(b.R, b.Rinv)))      # numpy.linalg.inv contract
 
         def sample(self_, n, seed=None):
             # post of contract Sample[D]
@@ -499,20 +510,19 @@ class LemmaSampleInside(Contract):
 
         def contains(self_, point):
             # post of contract Contains[D-region-point], instantiated at theta := TH(r, .)
-            cur().oblige('call-pre[contains: R^-1 is the inverse of R]', z3.And(is_identity(b.Rinv, b.R), is_identity(b.R, b.Rinv)))
             res = cur().fresh('inside', B_)
             th = [TH(r, j) for j in range(D)]
             img = b.image(th)
-            cur().assume(z3.Implies(z3.And(in_box(th, b.lim), z3.And([point.at(k) == img[k] for k in range(D)])), res))
+            cur().assume(z3.Implies(z3.And(s.inv_ok, in_box(th, b.lim), z3.And([point.at(k) == img[k] for k in range(D)])), res))
             return SBool(res)
         return s, (b.obj(sample=sample, contains=contains), SInt(n2), SInt(z3.Int('seed')), SInt(r)), {}
 
     def requires(self, s):
         b = s.b
-        return [0 <= s.r, s.r < s.n2, b.wide(), is_identity(b.Rinv, b.R), is_identity(b.R, b.Rinv)]
+        return [0 <= s.r, s.r < s.n2, b.wide()]
 
     def ensures(self, s, result):
-        return [('every sampled point is contained in the region', _as_bool(result))]
+        return [('every sampled point is contained in the region (R^-1 the inverse of R)', z3.Implies(s.inv_ok, _as_bool(result)))]
 
 
 CONTRACTS = ([SecureLimits(), ComputeVolume(), LemmaProdPositive(), Pdf()]
